@@ -70,6 +70,21 @@ func runC11(t *testing.T, s *kit.Session, c c11Case) *kit.Failure {
 		withG := verifyFull(b.Store, ref)
 		without := verifyFull(bBase.Store, ref)
 		if withG.Err == nil && without.Err != nil {
+			// Listed finding: the documented recovery rule itself is not monotone.
+			// A change that only the global rule forbids (a force push) and that is
+			// revoked starts a recovery, and the entry that ends a recovery - the
+			// first unrevoked one restoring the last good tree - is deliberately not
+			// signature-checked (the existing suite pins that). An unauthorised push
+			// that the delegation rules alone reject is then accepted as that fix.
+			// It is recognised by the reference model (which encodes exactly the
+			// documented semantics) showing the same pair of verdicts; an acceptance
+			// the model does not share is a violation (and also fails clause ii).
+			mG := &kit.Model{W: &w, Opts: kit.ModelOptions{}}
+			mB := &kit.Model{W: &wBase, Opts: kit.ModelOptions{}}
+			if mG.VerifyFull(ref).Kind == "ACCEPT" && mB.VerifyFull(ref).Kind == "REJECT" && s.IsKnown("C11-global-rule-violation-recovered-by-unverified-fix") {
+				s.KnownHit("C11-global-rule-violation-recovered-by-unverified-fix", c)
+				continue
+			}
 			return &kit.Failure{Cause: "global-rule-weakens", Msg: fmt.Sprintf("%s verifies with the global rules declared but is rejected by the delegation rules alone (%v)", ref, without.Err)}
 		}
 		if withG.Err != nil && without.Err == nil {
